@@ -80,8 +80,8 @@ def config(rng, name, criteria=None):
     if name in IMPUTERS:
         if name == "SimpleImputer":
             p["strategy"] = rng.choice(["mean", "median", "most_frequent", "constant"])
-            if p["strategy"] == "constant":
-                p["fill_value"] = rng.choice([0.0, -1.0, 7.5])
+            if p["strategy"] == "constant" and rng.random() < 0.7:
+                p["fill_value"] = rng.choice([0.0, -1.0, 7.5])      # (left out: the documented default constant, 0)
             elif rng.random() < 0.3:
                 p["fill_value"] = rng.choice([0.0, -1.0, 7.5])     # only used by the "constant" strategy
         if name == "KNNImputer":
